@@ -17,7 +17,12 @@ Inductive case :=
 
 (* short names for the shard files *)
 Definition I := mkIntr.
-Definition R := mkRaw None.
+(* id, phase and nolog are the first three (inert) elements of every list parseActions sees *)
+Definition R id ph c ch acts := mkRaw None id ph c ch (IInert :: IInert :: IInert :: acts).
+(* the counter rules "id:N,phase:P,nolog,setvar:tx.cN=+1,pass" and "...,pass,setvar:..." *)
+Definition Ca id ph := R id ph CTrue None [IInert; IDis DPass].
+Definition Cb id ph := R id ph CTrue None [IDis DPass; IInert].
+Definition II := IInert.
 Definition MK (m : N) := mkRaw (Some m) 0 0 CTrue None [].
 Definition D := mkDef.
 Definition W := mkWaf.
